@@ -391,6 +391,74 @@ def adversarial(rng, alphabet=" \t\n+-/0123456789x", maxlen=9):
     return "".join(alphabet[rng.below(len(alphabet))] for _ in range(rng.below(maxlen + 1)))
 
 
+def source_constants(chk):
+    """constants / literals of /repo's CURRENT sources that the model and its theorems rely on, read on every run.
+    A value that differs from the model's is a broken correspondence; a pattern that is no longer found is recorded as
+    inconclusive (the behaviour is still covered by the correspondence run)."""
+    out = {}
+
+    def src(rel):
+        try:
+            return open(os.path.join(vf.REPO, rel), errors="replace").read()
+        except OSError:
+            return None
+    # 1. RecInt display_dec: the digit buffer must hold every decimal digit of a 2^K-bit number (C19_ruint_dec_roundtrip
+    #    models the repaired loop, which never cuts).  The size expression is evaluated for every K the recursion allows.
+    t = src("src/kernel/recint/rudisplay.h")
+    m = re.search(r"char\s+result\s*\[([^\]]+)\]", t or "")
+    if not m:
+        out["recint.display_dec.buffer"] = "pattern not found (inconclusive)"
+    else:
+        expr = m.group(1)
+        pyexpr = re.sub(r"size_t\s*\(\s*(\d+)\s*\)", r"\1", expr)
+        pyexpr = re.sub(r"\b(\d+)[uUlL]+\b", r"\1", pyexpr).replace("/", "//")
+        bad = []
+        sizes = {}
+        try:
+            if not re.fullmatch(r"[0-9K\s()+\-*/<>]+", pyexpr):
+                raise ValueError("unexpected token")
+            for K in range(6, 17):
+                sz = int(eval(pyexpr, {"__builtins__": {}}, {"K": K}))
+                need = int((2 ** K) * math.log10(2)) + 1       # decimal digits of 2^(2^K) - 1
+                sizes[K] = [sz, need]
+                if sz < need:
+                    bad.append("K=%d: %d < %d digits" % (K, sz, need))
+            out["recint.display_dec.buffer"] = {"expr": expr.strip(), "size_vs_digits": sizes}
+            if bad:
+                chk.broke("rudisplay.h: the digit buffer `char result[%s]` of display_dec is shorter than the longest decimal numeral of ruint<K>: %s"
+                          % (expr.strip(), "; ".join(bad)))
+        except Exception as ex:
+            out["recint.display_dec.buffer"] = "expression `%s` not evaluated: %s (inconclusive)" % (expr.strip(), ex)
+    # 2. Rational reader: the only character skipped by the look-ahead, and the fraction bar (model: 32, 47)
+    t = src("src/kernel/rational/givratio.C") or ""
+    m1 = re.search(r"while\s*\(\s*\(\s*ch\s*==\s*'(.)'\s*\)\s*&&\s*\(?\s*in\s*\)?\s*\)", t)
+    m2 = re.findall(r"if\s*\(\s*ch\s*==\s*'(.)'\s*\)", t)
+    out["rational.lookahead.skip"] = m1.group(1) if m1 else "pattern not found (inconclusive)"
+    out["rational.lookahead.bar"] = m2 if m2 else "pattern not found (inconclusive)"
+    if m1 and m1.group(1) != " ":
+        chk.broke("givratio.C: the look-ahead skips %r, the model (blank_loop) skips ' '" % m1.group(1))
+    if m2 and m2 != ["/"]:
+        chk.broke("givratio.C: fraction bar tests %r, the model (rat_read) has only '/'" % m2)
+    # 3. Integer(const char*): base handed to mpz_init_set_str (model: mpz_set_str10)
+    t = src("src/kernel/gmp++/gmp++_int_cstor.C") or ""
+    m = re.search(r"Integer::Integer\s*\(\s*const\s+char\s*\*\s*\w*\s*\)\s*\{[^}]*mpz_init_set_str\s*\([^,]+,[^,]+,\s*([0-9]+)\s*\)", t, re.S)
+    out["integer.cstr.base"] = int(m.group(1)) if m else "pattern not found (inconclusive)"
+    if m and int(m.group(1)) != 10:
+        chk.broke("gmp++_int_cstor.C: Integer(const char*) parses in base %s, the model (Integer_of_string) in base 10" % m.group(1))
+    # 4. Poly1Dom::write: the string literals of the algebraic syntax (model: poly_write, proved parser poly_parse)
+    t = src("src/library/poly1/givpoly1io.inl") or ""
+    k = t.find("::write( std::ostream& o, const Rep& R)")
+    if k < 0:
+        out["poly.write.literals"] = "pattern not found (inconclusive)"
+    else:
+        body = t[k:t.find("::read ( std::istream& i, Rep& P)", k)]
+        lits = sorted(set(re.findall(r'"([^"\n]*)"', body)))
+        out["poly.write.literals"] = lits
+        if lits != sorted(["(", ")", ")*", " + ", "^", "0"]):
+            chk.broke("givpoly1io.inl: Poly1Dom::write uses the literals %r, the model (poly_write) has '(' ')' ')*' ' + ' '^' '0'" % lits)
+    chk.cov["source_constants"] = out
+
+
 def main(tier, replay=None):
     chk = vf.Check("C19", tier, "proof")
     rng = vf.Rng(chk.seed)
@@ -411,6 +479,7 @@ def main(tier, replay=None):
     # 1. proofs
     res = vf.coq_check_props(AREA)
     chk.proof_result(res, AREA)
+    source_constants(chk)
     # 2. executables
     drv, l1 = vf.ocaml_build(AREA) if os.path.exists(os.path.join(vf.coq_dir(AREA), "ocaml", "model.ml")) else (None, "extraction did not run")
     if drv is None:
@@ -997,6 +1066,12 @@ def main(tier, replay=None):
                        "followed by one of %d tails (blanks, '/', sign, digit, letters, end of stream) and read back through every call form; "
                        "plus adversarial texts over ' \\t\\n+-/0-9x' and sequences of 1-5 values with separators.  non-trivial = a value of two or more "
                        "digits or a text longer than 2 characters; distinct = the input line" % (len(RINGS), len(TAILS_ANY)))
+    forms = {}
+    for c in cases:
+        tk = c["impl"].split()
+        key = tk[0] + (":" + tk[1] if tk[0].split(".")[0] in ("ring", "poly") else (":K=" + tk[1] + (",hex" if tk[2] == "1" else "") if tk[0][:3] in ("ru.", "ri.") else ""))
+        forms[key] = forms.get(key, 0) + 1
+    chk.cov["call_forms"] = forms
     chk.cov["traces_validated_against_impl"] = ncorr
     chk.cov["distribution_by_kind"] = dist
     chk.cov["rings"] = sorted(RINGS)
@@ -1027,7 +1102,13 @@ def build_harness_private(src):
     harness (30 s of template instantiation) is still compiling."""
     import shutil
     srcp = os.path.join(vf.ROOT, "harness", src)
-    key = vf.file_hash(vf.repo_sources() + [srcp], "private-lib")
+    extra = []
+    try:        # ruint<6>(const char*) is declared but not defined before frag/C19.fix-4: use it only when the tree defines it
+        if re.search(r"ruint<__RECINT_LIMB_SIZE>::ruint\s*\(\s*const\s+char", open(os.path.join(vf.REPO, "src/kernel/recint/ruconvert.h"), errors="replace").read()):
+            extra = ["-DC19_RUINT6_CSTR"]
+    except OSError:
+        pass
+    key = vf.file_hash(vf.repo_sources() + [srcp], "private-lib" + "".join(extra))
     name = os.path.splitext(src)[0]
     d = vf.mkdir(os.path.join(vf.CACHE, "h-%s-%s" % (name, key)))
     b = os.path.join(d, name)
@@ -1047,7 +1128,7 @@ def build_harness_private(src):
     else:
         return None, log
     tmpb = "%s.tmp%d" % (b, os.getpid())
-    cmd = [vf.CXX] + vf.BASE_FLAGS + vf.inc_flags() + ["-I" + os.path.join(vf.ROOT, "harness"), srcp, "-o", tmpb, mylib,
+    cmd = [vf.CXX] + vf.BASE_FLAGS + extra + vf.inc_flags() + ["-I" + os.path.join(vf.ROOT, "harness"), srcp, "-o", tmpb, mylib,
                                                        "-lgmpxx", "-lgmp", "-lpthread"]
     rc, out = vf.sh(cmd, timeout=900)
     try:
